@@ -31,10 +31,69 @@ theorem refineItem_of_eq {best : Nat} (lr : LocalResult α) {it : Item α} (h : 
     refineItem best lr it = { it with point := lr.x, hv := lr.fx } := by
   unfold refineItem; simp [h]
 
+/-! ### `GetResults`: the reported trial -/
+
+/-- before any refinement `GetResults` reports the method's best -/
+theorem reportedId_of_none {ps : PState α} (s : State α) (h : ps.refined = none) : reportedId ps s = s.best := by
+  unfold reportedId; rw [h]
+
+/-- `GetResults` reports the refined trial exactly when it is found, differs from the method's best, which is found too,
+and its value holder is strictly smaller -/
+theorem reportedId_of_some {ps : PState α} (s : State α) {r : Nat} (h : ps.refined = some r) :
+    reportedId ps s =
+      match findItem s.items r, findItem s.items s.best with
+      | some ri, some bi => if r ≠ s.best ∧ ri.hv < bi.hv then r else s.best
+      | _, _ => s.best := by
+  unfold reportedId; rw [h]; rfl
+
+/-- the trial that `GetResults()` reports (`solution.bestTrials[0]` after the call), if the first iteration has been done -/
+def reported (ps : PState α) : Option (Item α) := ps.m.bind fun s => findItem s.items (reportedId ps s)
+
+/-- the method's best trial (`Method.best`, what `GetResults()` reported before the repair) -/
+def methodBest (ps : PState α) : Option (Item α) := ps.m.bind fun s => findItem s.items s.best
+
+theorem reported_of_some {ps : PState α} {s : State α} (hm : ps.m = some s) :
+    reported ps = findItem s.items (reportedId ps s) := by
+  unfold reported; rw [hm]; rfl
+
+/-- the reported trial is the method's best or the trial refined last -/
+theorem reportedId_cases (ps : PState α) (s : State α) :
+    reportedId ps s = s.best ∨
+    ∃ ri bi, ps.refined = some (reportedId ps s) ∧ reportedId ps s ≠ s.best ∧
+      findItem s.items (reportedId ps s) = some ri ∧ findItem s.items s.best = some bi ∧ ri.hv < bi.hv := by
+  cases hr : ps.refined with
+  | none => exact .inl (reportedId_of_none s hr)
+  | some r =>
+    rw [reportedId_of_some s hr]
+    split
+    · next ri bi h1 h2 =>
+      split
+      · next hc => exact .inr ⟨ri, bi, rfl, hc.1, h1, h2, hc.2⟩
+      · exact .inl rfl
+    · exact .inl rfl
+
+/-- `reportedId` reads `refined`, the items and `best` only -/
+theorem reportedId_congr {ps ps' : PState α} {s s' : State α} (hr : ps.refined = ps'.refined)
+    (hi : s.items = s'.items) (hb : s.best = s'.best) : reportedId ps s = reportedId ps' s' := by
+  unfold reportedId; rw [hr, hi, hb]
+
 theorem doLocalRefinement_some {ps : PState α} {s : State α} (lr : LocalResult α) (hm : ps.m = some s) :
     doLocalRefinement ps lr =
-      { ps with m := some { s with items := s.items.map (refineItem s.best lr) }, nLocal := lr.nfev } := by
+      { ps with m := some { s with items := s.items.map (refineItem (reportedId ps s) lr) }, nLocal := lr.nfev,
+                refined := some (reportedId ps s) } := by
   unfold doLocalRefinement; rw [hm]; rfl
+
+/-- the first refinement (nothing refined before) refines the method's best -/
+theorem doLocalRefinement_some_first {ps : PState α} {s : State α} (lr : LocalResult α) (hm : ps.m = some s)
+    (hr : ps.refined = none) :
+    doLocalRefinement ps lr =
+      { ps with m := some { s with items := s.items.map (refineItem s.best lr) }, nLocal := lr.nfev,
+                refined := some s.best } := by
+  rw [doLocalRefinement_some lr hm, reportedId_of_none s hr]
+
+theorem doLocalRefinement_refined {ps : PState α} {s : State α} (lr : LocalResult α) (hm : ps.m = some s) :
+    (doLocalRefinement ps lr).refined = some (reportedId ps s) := by
+  rw [doLocalRefinement_some lr hm]
 
 theorem doLocalRefinement_none {ps : PState α} (lr : LocalResult α) (hm : ps.m = none) : doLocalRefinement ps lr = ps := by
   unfold doLocalRefinement; rw [hm]
@@ -48,6 +107,41 @@ theorem findItem_map_refineItem (best : Nat) (lr : LocalResult α) (items : List
     cases (it.id == id)
     · exact ih
     · rfl
+
+theorem findItem_id_eq {items : List (Item α)} {id : Nat} {it : Item α} (h : findItem items id = some it) : it.id = id := by
+  have := List.find?_some h
+  simpa using this
+
+/-- the refined trial is never reported "instead of itself" -/
+theorem reportedId_eq_best_of_refined_eq {ps : PState α} {s : State α} (h : ps.refined = some s.best) :
+    reportedId ps s = s.best := by
+  rw [reportedId_of_some s h]
+  split
+  · split
+    · next hc => exact absurd rfl hc.1
+    · rfl
+  · rfl
+
+/-- after `DoLocalRefinement` the refined trial is still the one reported, provided it is the method's best or its new value
+is strictly below the value holder of the method's best -/
+theorem reportedId_doLocalRefinement {ps : PState α} {s : State α} (lr : LocalResult α) (hm : ps.m = some s) {b : Item α}
+    (hb : findItem s.items (reportedId ps s) = some b)
+    (hcase : reportedId ps s = s.best ∨ ∀ bi, findItem s.items s.best = some bi → lr.fx < bi.hv) :
+    reportedId (doLocalRefinement ps lr) { s with items := s.items.map (refineItem (reportedId ps s) lr) } = reportedId ps s := by
+  have hr := doLocalRefinement_refined lr hm
+  by_cases heq : reportedId ps s = s.best
+  · rw [heq] at hr ⊢
+    exact reportedId_eq_best_of_refined_eq hr
+  · have hlt := hcase.resolve_left heq
+    rcases reportedId_cases ps s with h | ⟨ri, bi, -, -, -, hbi, -⟩
+    · exact absurd h heq
+    · rw [reportedId_of_some _ hr]
+      simp only [findItem_map_refineItem, hb, hbi, Option.map_some]
+      have hbid := findItem_id_eq hb
+      have hbiid := findItem_id_eq hbi
+      rw [refineItem_of_eq lr hbid, refineItem_of_ne lr (by rw [hbiid]; exact fun h => heq h.symm)]
+      simp only []
+      rw [if_pos ⟨heq, hlt bi hbi⟩]
 
 end Proc
 end
